@@ -87,10 +87,10 @@ Definition ofRes (r : sres prog) : sexp :=
 Definition run_det (s : sexp) : sexp :=
   match s with
   | L [fu; wfu; tb; ws; st; scs] =>
-    (* wfu: fuel for the well-formedness flag (0 = not evaluated: wf_at enumerates the language) *)
+    (* wfu: fuel for the well-formedness flag (0 = not evaluated: wf_at_lang enumerates the language) *)
     match asNat fu, asNat wfu, table_of_sexp tb, wtable_of_sexp ws, nt_of_sexp st, asListOf script_of_sexp scs with
     | Some fuel, Some wfuel, Some tbl, Some w, Some start, Some scripts =>
-      L [ ofBool (wf_at wfuel tbl w start); ofBool (keys_ok tbl w);
+      L [ ofBool (wf_at_lang wfuel tbl w start); ofBool (keys_ok tbl w);
           ofList (fun sc => ofList ofRes (sample_many fuel tbl w start (fst sc) (snd sc))) scripts ]
     | _, _, _, _, _, _ => bad_case
     end
@@ -111,7 +111,7 @@ Definition run_det_dist (s : sexp) : sexp :=
   | L [fu; tb; ws; st] =>
     match asNat fu, table_of_sexp tb, wtable_of_sexp ws, nt_of_sexp st with
     | Some fuel, Some tbl, Some w, Some start =>
-      L [ ofBool (wf_at fuel tbl w start); ofBool (keys_ok tbl w);
+      L [ ofBool (wf_at_lang fuel tbl w start); ofBool (keys_ok tbl w);
           ofList (fun e => L [ofList ofNat (e_script e); sexp_of_prog (e_prog e); ofQ (e_prob e);
                               ofQ (probability tbl w start (e_prog e))])
                  (sample_dist fuel tbl w start);
